@@ -1404,7 +1404,7 @@ func conv(i *interpreter, t_dst, t_src types.Type, x value) value {
 		}
 	}
 
-	panic(fmt.Sprintf("unsupported conversion: %s  -> %s, dynamic type %T", t_src, t_dst, x))
+	panic(pathAbort{kind: abortUnsupported, msg: fmt.Sprintf("unsupported conversion: %s  -> %s, dynamic type %T%s", t_src, t_dst, x, i.where())})
 }
 
 // sliceToArrayPointer converts the value x of type slice to type t_dst
